@@ -7,6 +7,10 @@ from coqterm import B, Bool, C, L, N, Opt, Pair, Rec
 FLAGS = ['Authority', 'BadExit', 'Exit', 'Fast', 'Guard', 'HSDir', 'Named', 'Running', 'Stable', 'V2Dir',
          'Valid', 'NoEdConsensus', 'StaleDesc', 'Sybil', 'Unnamed', 'FooBar9']
 NICKS = ['Unnamed', 'alpha', 'bravo7', 'c', 'moria1', 'Tonga', 'x19charsnickname19']
+ODD_NICKS = ['OK', 'r', 'ns', 's', '0', 'GUARD']
+ODD_FLAGS = ['Foo=bar', '.', 'OK', 'ns/x', 'r', 's', 'guardx', 'Authority2', '$x', 'w']
+ODD_WEXTRA = ['$a=b', '=x', 'a=b=c', 'bandwidth=9', 'XBandwidth=3', 'Bandwidth', 'x', 'Measured=']
+ODD_V6 = ['OK', '.', '1.2.3.4:5', 'a', '[::]:0', 'x=y']
 POLICIES = [['reject', '1-65535'], ['accept', '80,443'], ['accept', '20-23,43,53,79-81,443,8000-9000'],
             ['reject', '25,119,135-139,445']]
 
@@ -58,7 +62,7 @@ class P(core.Prop):
     spec_mod = 'Check.C16_spec'
     extra_imports = 'From TxVerif Require Import Spec.C16.\n'
     quick_n = 500
-    thorough_n = 8000
+    thorough_n = 4500
     shard = 45
     design_ref = '5/C16'
     _quiet = False
@@ -68,7 +72,7 @@ class P(core.Prop):
             'and optional "p" change from one document to the next or stay the same); empty documents; first '
             'document through GETINFO ns/all, the others as 650+NEWCONSENSUS events on a real TorControlProtocol, '
             'each block delivered in one segment or line by line; after every document the whole view is observed. '
-            'About 2% of the histories are in the input class of each open finding. '
+            '"p" occurs with and without "w"; about 2% of the histories are in the input class of the open finding C16-F2. '
             'non-trivial = at least two documents that differ; distinct = distinct case')
     trusted = ["Twisted's StringTransport; the harness's dir-spec printer (cross-checked against Spec.C16.render_doc: the "
                "model parses Coq's rendering of the same structured document, the implementation parses Python's)",
@@ -286,7 +290,7 @@ class P(core.Prop):
 
     def _to_coq(self, case, obs):
         docs = L(Pair(L(self._entry(e) for e in d), L(self._b(k) for k in x)) for d, x in zip(case['docs'], case['extra']))
-        return Rec(k_docs=docs, k_f1=Bool(has_p_without_w(case)), k_f2=Bool(has_dup_authority_nick(case)),
+        return Rec(k_docs=docs, k_f2=Bool(has_dup_authority_nick(case)),
                    k_obs=L(self._view(v) for v in obs['views']),
                    k_codec=L(Rec(co_id=self._b(bytes.fromhex(c[0])), co_hex=Opt(None if c[1] is None else self._b(c[1])),
                                  co_b64=Opt(None if c[2] is None else self._b(c[2])),
@@ -295,6 +299,8 @@ class P(core.Prop):
     # ------------------------------------------------------------------ evidence labels
     def kind(self, case, obs):
         tags = ['%ddocs' % len(case['docs'])]
+        if case.get('odd'):
+            tags.append('odd')
         if any(len(set(e['nick'] for e in d)) < len(d) for d in case['docs']):
             tags.append('dupnick')
         if any(e['v6'] for d in case['docs'] for e in d):
@@ -302,7 +308,7 @@ class P(core.Prop):
         if any(e['bw'] is None for d in case['docs'] for e in d):
             tags.append('noW')
         if has_p_without_w(case):
-            tags.append('F1')
+            tags.append('pNoW')
         if has_dup_authority_nick(case):
             tags.append('F2')
         return '/'.join(tags)
@@ -317,7 +323,7 @@ class P(core.Prop):
                 'digest': base64.b64encode(bytes(rng.randrange(256) for _ in range(20))).decode()[:-1],
                 'nick': rng.choice(NICKS)}
 
-    def _fresh_attrs(self, rng, r, allow_f1):
+    def _fresh_attrs(self, rng, r, allow_f1, odd=False):
         e = {'nick': r['nick'], 'id': r['id'], 'digest': r['digest']}
         e['date'] = '20%02d-%02d-%02d' % (rng.randrange(10, 30), rng.randrange(1, 13), rng.randrange(1, 29))
         e['time'] = '%02d:%02d:%02d' % (rng.randrange(24), rng.randrange(60), rng.randrange(60))
@@ -327,11 +333,15 @@ class P(core.Prop):
         nv6 = rng.choice([0, 0, 0, 1, 1, 2])
         e['v6'] = ['[2001:db8:%x::%x]:%d' % (rng.randrange(1, 65536), rng.randrange(1, 65536), rng.randrange(1, 65536))
                    for _ in range(nv6)]
+        if odd and rng.random() < 0.4:
+            e['v6'].append(rng.choice(ODD_V6))
         fl = [f for f in FLAGS if rng.random() < 0.25]
         if rng.random() < 0.35 and 'Guard' not in fl:
             fl.append('Guard')
         if rng.random() < 0.12 and 'Authority' not in fl:
             fl.append('Authority')
+        if odd and rng.random() < 0.5:
+            fl.append(rng.choice(ODD_FLAGS))
         if not fl:
             fl = ['Running']
         fl.sort()
@@ -344,6 +354,8 @@ class P(core.Prop):
                 e['bw'] = '00' + e['bw']
             e['wextra'] = rng.choice([[], [], [], ['Unmeasured=1'], ['Measured=%d' % rng.randrange(1000)],
                                       ['Measured=12', 'Unmeasured=1']])
+            if odd and rng.random() < 0.5:
+                e['wextra'] = e['wextra'] + [rng.choice(ODD_WEXTRA)]
             e['policy'] = rng.choice(POLICIES) if rng.random() < 0.6 else None
         else:
             e['bw'] = None
@@ -351,10 +363,10 @@ class P(core.Prop):
             e['policy'] = rng.choice(POLICIES) if (allow_f1 and rng.random() < 0.5) else None
         return e
 
-    def _mutate_attrs(self, rng, e, allow_f1):
+    def _mutate_attrs(self, rng, e, allow_f1, odd=False):
         """the same relay in the next document: most things stay, something changes"""
         e = dict(e)
-        f = self._fresh_attrs(rng, {'nick': e['nick'], 'id': e['id'], 'digest': e['digest']}, allow_f1)
+        f = self._fresh_attrs(rng, {'nick': e['nick'], 'id': e['id'], 'digest': e['digest']}, allow_f1, odd)
         what = rng.sample(['flags', 'bw', 'v6', 'ip', 'ports', 'nick', 'none', 'w-away', 'flag-away', 'v6-away'],
                           rng.choice([1, 1, 2, 3]))
         for w in what:
@@ -371,7 +383,9 @@ class P(core.Prop):
             elif w == 'nick':
                 e['nick'] = rng.choice(NICKS)
             elif w == 'w-away':
-                e['bw'], e['wextra'], e['policy'] = None, [], None
+                e['bw'], e['wextra'] = None, []
+                if rng.random() < 0.5:
+                    e['policy'] = None
             elif w == 'flag-away':
                 fl = [x for x in e['flags'] if x not in ('Guard', 'Authority')]
                 e['flags'] = fl or ['Running']
@@ -383,10 +397,15 @@ class P(core.Prop):
 
     def _case(self, rng):
         r = rng.random()
-        allow_f1 = r < 0.02
+        allow_f1 = True      # entries with a "p" line and no "w" line are ordinary input since c31e0a3
         want_f2 = 0.02 <= r < 0.04
+        odd = rng.random() < 0.12      # boundary stream: odd but well-formed tokens
         npool = rng.choice([2, 3, 4, 5, 6, 8])
         pool = [self._relay(rng) for _ in range(npool)]
+        if odd:
+            for p in pool:
+                if rng.random() < 0.4:
+                    p['nick'] = rng.choice(ODD_NICKS)
         if rng.random() < 0.5:
             # force duplicate nicknames
             for p in pool[1:]:
@@ -404,9 +423,9 @@ class P(core.Prop):
             for p in members:
                 if p['id'] in last and rng.random() < 0.85:
                     prev = last[p['id']]
-                    e = prev if rng.random() < 0.3 else self._mutate_attrs(rng, prev, allow_f1)
+                    e = prev if rng.random() < 0.3 else self._mutate_attrs(rng, prev, allow_f1, odd)
                 else:
-                    e = self._fresh_attrs(rng, p, allow_f1)
+                    e = self._fresh_attrs(rng, p, allow_f1, odd)
                 if not allow_f1 and e['bw'] is None:
                     e = dict(e, policy=None)
                 last[p['id']] = e
@@ -438,18 +457,59 @@ class P(core.Prop):
                          + ([hexid(d[0]) + rng.choice(['~', '=']) + d[0]['nick']] if d and rng.random() < 0.3 else []))
         codec = [rng.choice(['00' * 20, 'ff' * 20, 'fb' * 20, '0f' * 19 + 'f0',
                              bytes(rng.randrange(256) for _ in range(20)).hex()])]
-        return {'docs': docs, 'extra': extra, 'whole': [rng.random() < 0.7 for _ in docs], 'codec': codec}
+        return {'docs': docs, 'extra': extra, 'whole': [rng.random() < 0.7 for _ in docs], 'codec': codec, 'odd': odd}
 
     def generate(self, rng, tier, n):
         return [self._case(rng) for _ in range(n)]
+
+    def exhaustive(self, tier):
+        if tier != 'thorough':
+            return [], None
+        import itertools
+        ids = ['0a' * 20, 'f5' * 20]
+
+        def variant(k, rid, nick):
+            base = {'nick': nick, 'id': rid, 'digest': 'AAAAAAAAAAAAAAAAAAAAAAAAAAA', 'date': '2020-01-01',
+                    'time': '00:00:00', 'ip': '10.0.0.%d' % (k + 1), 'orport': '9001', 'dirport': str(k)}
+            if k == 0:
+                base.update(v6=['[::1]:9001'], flags=['Guard', 'Running'], bw='100', wextra=[], policy=['reject', '1-65535'])
+            elif k == 1:
+                base.update(v6=[], flags=['Authority'], bw=None, wextra=[], policy=['accept', '80'])
+            else:
+                base.update(v6=[], flags=['Running'], bw='7', wextra=['Unmeasured=1'], policy=None)
+            return base
+
+        def docs_over(nvar, nicks):
+            out = [[]]
+            for k in range(nvar):
+                out.append([variant(k, ids[0], nicks[0])])
+                out.append([variant(k, ids[1], nicks[1])])
+            for k in range(nvar):
+                for j in range(nvar):
+                    out.append([variant(k, ids[0], nicks[0]), variant(j, ids[1], nicks[1])])
+            return out
+        cases = []
+        for nicks in (('x', 'x'), ('x', 'y')):
+            d3 = docs_over(3, nicks)
+            for h in itertools.product(d3, repeat=2):
+                cases.append({'docs': list(h), 'extra': [[] for _ in h], 'whole': [True] * 2, 'codec': []})
+            d2 = docs_over(2, nicks)
+            for h in itertools.product(d2, repeat=3):
+                cases.append({'docs': list(h), 'extra': [[] for _ in h], 'whole': [True] * 3, 'codec': []})
+        return cases, ('every 2-document history over 2 relays x 3 entry variants (Guard+a+w+p / Authority with p and no w / '
+                       'w only) x same or different nickname (512), and every 3-document history over the first two '
+                       'variants (1458)')
 
     def shrink_candidates(self, case):
         docs, extra, whole = case['docs'], case['extra'], case.get('whole', [True] * len(case['docs']))
 
         def mk(ds, xs, ws):
-            return {'docs': ds, 'extra': xs, 'whole': ws, 'codec': case.get('codec', [])}
+            # stay inside the envelope: an extra key may name a fingerprint only if that relay is in the document
+            xs = [[k for k in x if not k.startswith('$') or k[:41] in set(hexid(e) for e in d)]
+                  for d, x in zip(ds, xs)]
+            return {'docs': ds, 'extra': xs, 'whole': ws, 'codec': case.get('codec', []), 'odd': case.get('odd', False)}
         if case.get('codec'):
-            yield {'docs': docs, 'extra': extra, 'whole': whole, 'codec': []}
+            yield {'docs': docs, 'extra': extra, 'whole': whole, 'codec': [], 'odd': case.get('odd', False)}
         if len(docs) > 1:
             for i in range(len(docs)):
                 yield mk(docs[:i] + docs[i + 1:], extra[:i] + extra[i + 1:], whole[:i] + whole[i + 1:])
@@ -487,7 +547,6 @@ class P(core.Prop):
                     yield mk(docs[:i] + [d[:j] + [c] + d[j + 1:]] + docs[i + 1:], extra, whole)
 
     finding_preds = {
-        'p_line_without_w_line': lambda c, o: has_p_without_w(c),
         'duplicate_authority_nickname': lambda c, o: has_dup_authority_nick(c),
     }
 
